@@ -8,6 +8,10 @@ import (
 type demuxConn struct {
 	r chan *Rpc
 	w chan *Rpc
+	// done is closed by Cancel. r and w are never closed: Run and the users of
+	// the logical connection may be sending on them at that moment, and a send
+	// on a closed channel panics.
+	done chan struct{}
 }
 
 // Wraps a Goat Server, demultiplexing IO.
@@ -67,7 +71,11 @@ func (gsd *Demux) Run() {
 		gsd.conns.Unlock()
 
 		vGate("demux.run.window", gsd, rpc.GetId())
-		conn.r <- rpc
+		select {
+		case conn.r <- rpc:
+		case <-conn.done:
+			// Cancelled since the lookup: nobody is left to read this RPC.
+		}
 	}
 }
 
@@ -76,8 +84,7 @@ func (gsd *Demux) Cancel(id string) {
 	defer gsd.conns.Unlock()
 
 	if conn, ok := gsd.conns.value[id]; ok {
-		close(conn.r)
-		close(conn.w)
+		close(conn.done)
 	}
 
 	delete(gsd.conns.value, id)
@@ -85,8 +92,9 @@ func (gsd *Demux) Cancel(id string) {
 
 func (gsd *Demux) newConnLocked(id string) *demuxConn {
 	c := &demuxConn{
-		r: make(chan *Rpc),
-		w: make(chan *Rpc),
+		r:    make(chan *Rpc),
+		w:    make(chan *Rpc),
+		done: make(chan struct{}),
 	}
 
 	go func() {
@@ -94,10 +102,9 @@ func (gsd *Demux) newConnLocked(id string) *demuxConn {
 			select {
 			case <-gsd.ctx.Done():
 				return
-			case rpc, ok := <-c.w:
-				if !ok {
-					return
-				}
+			case <-c.done:
+				return
+			case rpc := <-c.w:
 				err := gsd.rw.Write(gsd.ctx, rpc)
 				if err != nil {
 					return
@@ -108,7 +115,7 @@ func (gsd *Demux) newConnLocked(id string) *demuxConn {
 
 	gsd.conns.value[id] = c
 
-	go gsd.onNewConnection(NewGoatOverChannel(c.r, c.w))
+	go gsd.onNewConnection(newGoatOverChannel(c.r, c.w, c.done))
 
 	return c
 }
